@@ -48,10 +48,11 @@ type c09Case struct {
 	ioerr    bool
 	arr      string
 	excl     string // "", "b", "z"
+	nonrec   bool   // -d instead of -r: only the top directory is transferred
 }
 
 func (c c09Case) String() string {
-	return fmt.Sprintf("top-extraneous=%06b sub-extraneous=%05b kinds=%d delete=%v ioerr=%v arr=%s exclude=%q", c.top, c.sub, c.kinds, c.del, c.ioerr, c.arr, c.excl)
+	return fmt.Sprintf("top-extraneous=%06b sub-extraneous=%05b kinds=%d delete=%v ioerr=%v arr=%s exclude=%q nonrecursive=%v", c.top, c.sub, c.kinds, c.del, c.ioerr, c.arr, c.excl, c.nonrec)
 }
 
 func bits(n int) int {
@@ -100,8 +101,20 @@ func c09Expected(c c09Case, before tm.Tree, effectiveDelete bool) (wantA, wantB 
 	wantA, wantB = map[string]bool{}, map[string]bool{}
 	listed := map[string]bool{}
 	for _, e := range c09Src() {
+		if c.nonrec && strings.Contains(e.Path, "/") {
+			continue // below a sub-directory: not transferred
+		}
 		listed[e.Path] = true
 		wantA[e.Path], wantB[e.Path] = true, true
+	}
+	if c.nonrec {
+		// the contents of listed sub-directories are not transferred: whatever is there stays as it is
+		for _, e := range before {
+			if i := strings.IndexByte(e.Path, '/'); i > 0 && listed[e.Path[:i]] {
+				listed[e.Path] = true
+				wantA[e.Path], wantB[e.Path] = true, true
+			}
+		}
 	}
 	named := func(p string) bool { // p or an ancestor is named by the exclude rule
 		if c.excl == "" {
@@ -177,6 +190,9 @@ func c09Judge(c c09Case, before, after tm.Tree, canaryBefore, canaryAfter tm.Tre
 		// "an entry that is present in the source is never deleted": a listed directory, or a listed
 		// file that the update rule leaves alone, must still be the same file system object
 		for _, s := range c09Src() {
+			if c.nonrec && strings.Contains(s.Path, "/") {
+				continue
+			}
 			b, a := before.Find(s.Path), after.Find(s.Path)
 			if b == nil || a == nil || b.Type != a.Type || b.Type != s.Type {
 				continue
@@ -255,6 +271,9 @@ func c09Run(c c09Case) core.Result {
 	before, _ := tm.Snapshot(dst, false)
 	cb, _ := tm.Snapshot(filepath.Join(dir, "canary"), false)
 	args := []string{"-rlt"}
+	if c.nonrec {
+		args = []string{"-dlt"}
+	}
 	if c.del {
 		args = append(args, "--delete")
 	}
@@ -322,6 +341,9 @@ func c09BuildReal(tier string) core.Source {
 									continue
 								}
 								cases = append(cases, c09Case{top: top, sub: sub, kinds: kinds, del: del, ioerr: ioerr, arr: arr, excl: excl})
+								if !ioerr && !strings.HasSuffix(excl, "/") && (tier == "thorough" || (top+2*sub)%5 == 0) {
+									cases = append(cases, c09Case{top: top, sub: sub, kinds: kinds, del: del, arr: arr, excl: excl, nonrec: true})
+								}
 							}
 						}
 					}
